@@ -184,3 +184,75 @@ package runtime
 //@ func init$2
 //@ ensures [C15:discard] result == nil
 //@ assigns \nothing
+
+// ---------------------------------------------------------------- csv.go, csv_options.go (C16)
+
+//@ spec csvSkip(opts) := opts.skippedLines > 0 ? opts.skippedLines : 0
+
+// pipeCSV: after dropping the skipped lines, every record read is written, in order,
+// nothing else; a read error other than EOF, or a write error, is returned and nothing
+// is flushed; EOF while skipping ends with nil and no record written.
+//@ func pipeCSV
+//@ watch RD = invoke (runtime.CSVReader).Read
+//@ watch IS = call errors.Is
+//@ watch WR = invoke (runtime.CSVWriter).Write
+//@ watch FL = invoke (runtime.CSVWriter).Flush
+//@ watch ER = invoke (runtime.CSVWriter).Error
+//@ requires csvWriter != nil && csvReader != nil
+//@ ensures [C16:reads] forall n int :: called(RD,n) ==> 0 <= n && n < calls(RD) && recv(RD,n) == csvReader
+//@ ensures [C16:skipped] forall n int :: 0 <= n && n < csvSkip(opts) && n < calls(RD) - 1 ==> ret(RD,n,1) == nil
+//@ ensures [C16:records] forall n int :: called(WR,n) ==> 0 <= n && n < calls(WR) && recv(WR,n) == csvWriter && arg(WR,n,0) == ret(RD,n+csvSkip(opts),0) && ret(RD,n+csvSkip(opts),1) == nil && called(RD,n+csvSkip(opts))
+//@ ensures [C16:allwritten] calls(FL) == 1 ==> calls(RD) == csvSkip(opts) + calls(WR) + 1 && ret(RD,calls(RD)-1,1) != nil && (forall n int :: called(WR,n) ==> ret(WR,n,0) == nil) && calls(ER) == 1 && result == ret(ER,0,0) && time(FL,0) < time(ER,0)
+//@ ensures [C16:noflush] calls(FL) == 0 && calls(WR) > 0 && result == nil ==> false
+//@ ensures [C16:readerror] calls(FL) == 0 && calls(RD) > 0 && ret(RD,calls(RD)-1,1) != nil && calls(RD) > csvSkip(opts) ==> result == ret(RD,calls(RD)-1,1)
+//@ ensures [C16:writeerror] calls(FL) == 0 && calls(WR) > 0 && ret(WR,calls(WR)-1,0) != nil ==> result == ret(WR,calls(WR)-1,0)
+//@ ensures [C16:errorsurfaces] (exists n int :: called(WR,n) && ret(WR,n,0) != nil) ==> result != nil && calls(FL) == 0
+//@ loop 0 invariant calls(WR) == 0 && calls(FL) == 0 && calls(ER) == 0 && calls(RD) >= 0
+//@ loop 0 invariant opts0.skippedLines > 0 ==> opts.skippedLines >= 0 && calls(RD) == opts0.skippedLines - opts.skippedLines
+//@ loop 0 invariant opts0.skippedLines <= 0 ==> calls(RD) == 0 && opts.skippedLines == opts0.skippedLines
+//@ loop 0 invariant forall n int :: called(RD,n) ==> 0 <= n && n < calls(RD) && recv(RD,n) == csvReader && ret(RD,n,1) == nil
+//@ loop 1 invariant calls(FL) == 0 && calls(ER) == 0 && calls(WR) >= 0 && calls(RD) == csvSkip(opts0) + calls(WR)
+//@ loop 1 invariant forall n int :: called(RD,n) ==> 0 <= n && n < calls(RD) && recv(RD,n) == csvReader && ret(RD,n,1) == nil
+//@ loop 1 invariant forall n int :: called(WR,n) ==> 0 <= n && n < calls(WR) && recv(WR,n) == csvWriter && arg(WR,n,0) == ret(RD,n+csvSkip(opts0),0) && ret(WR,n,0) == nil && called(RD,n+csvSkip(opts0))
+
+//@ func bufferedCSV
+//@ watch RD = call (*encoding/csv.Reader).Read
+//@ watch IS = call errors.Is
+//@ watch RA = call (*encoding/csv.Reader).ReadAll
+//@ watch WA = call (*encoding/csv.Writer).WriteAll
+//@ ensures [C16:skipreads] forall n int :: called(RD,n) ==> 0 <= n && n < calls(RD) && arg(RD,n,0) == csvReader
+//@ ensures [C16:skipped] calls(RD) <= csvSkip(opts) && (forall n int :: 0 <= n && n < calls(RD) - 1 ==> ret(RD,n,1) == nil)
+//@ ensures [C16:all] calls(RA) == 1 ==> calls(RD) == csvSkip(opts) && (forall n int :: 0 <= n && n < calls(RD) ==> ret(RD,n,1) == nil) && arg(RA,0,0) == csvReader
+//@ ensures [C16:readerror] calls(RA) == 1 && ret(RA,0,1) != nil ==> result == ret(RA,0,1) && calls(WA) == 0
+//@ ensures [C16:written] calls(RA) == 1 && ret(RA,0,1) == nil ==> calls(WA) == 1 && arg(WA,0,0) == csvWriter && arg(WA,0,1) == ret(RA,0,0) && result == ret(WA,0,0)
+//@ ensures [C16:skiperror] calls(RA) == 0 ==> calls(WA) == 0 && calls(RD) > 0 && ret(RD,calls(RD)-1,1) != nil
+//@ loop 0 invariant calls(RA) == 0 && calls(WA) == 0 && calls(RD) >= 0
+//@ loop 0 invariant opts0.skippedLines > 0 ==> opts.skippedLines >= 0 && calls(RD) == opts0.skippedLines - opts.skippedLines
+//@ loop 0 invariant opts0.skippedLines <= 0 ==> calls(RD) == 0 && opts.skippedLines == opts0.skippedLines
+//@ loop 0 invariant forall n int :: called(RD,n) ==> arg(RD,n,0) == csvReader && ret(RD,n,1) == nil
+
+// the in-memory record table used for *[][]string destinations and [][]string sources
+//@ func (*csvRecordsWriter).Write
+//@ requires w != nil
+//@ ensures [C16:append] result == nil && len(w.records) == old(len(w.records)) + 1 && w.i == old(w.i)
+//@ ensures [C16:noalias] fresh(w.records[len(w.records)-1]) || len(record) == 0
+//@ ensures [C16:content] len(w.records[len(w.records)-1]) == len(record) && forall k int :: 0 <= k && k < len(record) ==> w.records[len(w.records)-1][k] == old(record[k])
+
+//@ func (*csvRecordsWriter).Read
+//@ requires w != nil
+//@ ensures [C16:eof] old(w.i) >= len(old(w.records)) || old(w.i) < 0 ==> result1 == io.EOF || old(w.i) < 0
+//@ ensures [C16:next] 0 <= old(w.i) && old(w.i) < len(old(w.records)) ==> result1 == nil && result0 == old(w.records[w.i]) && w.i == old(w.i) + 1
+
+//@ func (*csvRecordsWriter).Flush
+//@ assigns \nothing
+//@ func (*csvRecordsWriter).Error
+//@ ensures result == nil
+//@ assigns \nothing
+
+//@ func (csvOpts).applyToReader
+//@ requires in != nil
+//@ ensures [C16:readeropts] in.Comma == (o.csvReader.Comma != 0 ? o.csvReader.Comma : old(in.Comma)) && in.Comment == (o.csvReader.Comment != 0 ? o.csvReader.Comment : old(in.Comment)) && in.FieldsPerRecord == (o.csvReader.FieldsPerRecord != 0 ? o.csvReader.FieldsPerRecord : old(in.FieldsPerRecord)) && in.LazyQuotes == o.csvReader.LazyQuotes && in.TrimLeadingSpace == o.csvReader.TrimLeadingSpace && in.ReuseRecord == o.csvReader.ReuseRecord
+
+//@ func (csvOpts).applyToWriter
+//@ requires in != nil
+//@ ensures [C16:writeropts] in.Comma == (o.csvWriter.Comma != 0 ? o.csvWriter.Comma : old(in.Comma)) && in.UseCRLF == o.csvWriter.UseCRLF
